@@ -52,6 +52,8 @@ def gen_v2(rng, allow_leading_zero=False):
     m = rng.choice([0, 1, 2, 3, 6])
     lz = allow_leading_zero and rng.random() < 0.5
     recs = [rand_record(rng, i, leading_zero=(lz and i == 0)) for i in range(m)]
+    if m >= 2 and rng.random() < 0.2:
+        recs[rng.randrange(1, m)] = bytes(64)          # a record whose every field is zero is a record like any other
     hdr_fill = rng.choice([b'\0', b'\xab'])
     return {'kind': 'v2', 'threads': threads, 'pad': pad, 'records': recs,
             'data': D.build_v2(threads, pad, recs, hdr_fill=hdr_fill)}
@@ -91,6 +93,8 @@ def gen_v3(rng, small=False):
     threads = rand_threads(rng, rng.choice([0, 1, 3, 6]))
     total = rng.choice([0, 1, 2, 5] if small else [0, 1, 2, 5, 9])
     recs = [rand_record(rng, i) for i in range(total)]
+    if total >= 2 and rng.random() < 0.15:
+        recs[rng.randrange(1, total)] = bytes(64)
     nchunks = rng.choice([1, 1, 2, 3, 5])
     cuts = sorted(rng.randint(0, total) for _ in range(nchunks - 1))
     chunks, prev = [], 0
